@@ -200,10 +200,15 @@ class _:
         else:
             data, X = _problem(ttb, rs, shp, "sparse")
             nnz = data.nnz
-            if kind == "stratified":
-                subs, vals, wts = _call_strat(samplers, data, case)
-            else:
-                subs, vals, wts = samplers.semistrat(data, case["nz"], case["z"])
+            try:
+                if kind == "stratified":
+                    subs, vals, wts = _call_strat(samplers, data, case)
+                else:
+                    subs, vals, wts = samplers.semistrat(data, case["nz"], case["z"])
+            except ValueError:
+                if nnz == 0 and case["nz"] > 0:
+                    return  # nonzero samples were requested from a tensor without nonzeros: declined
+                raise
             rep = tot
         cls = f"{kind}:nz{'>' if case['nz'] > (X != 0).sum() else '<='}nnz:z{'>' if case['z'] > (X == 0).sum() else '<='}zeros"
         if subs.ndim != 2 or subs.shape[1] != len(shp):
